@@ -57,6 +57,10 @@ impl<T: CoordsFloat> CMap3<T> {
                     self.beta_transac::<1>(trans, rside)?,
                 );
             }
+            if rside != NULL_DART_ID {
+                // (*)
+                abort(LinkError::AsymmetricalFaces(ld, rd))?;
+            }
         }
         // (*): if we land on NULL on one side, the other side should be NULL as well
         //      if that is not the case, it means (either):
